@@ -1,9 +1,14 @@
 #!/bin/bash
-# Build the Lean library (generic proofs + model) and warm the caches. Offline, from files on disk only.
+# Build the framework offline from files on disk: translators -> Generated Lean modules -> library, certificates, driver.
 set -e
 cd "$(dirname "$0")"
+export PYTHONPATH="/verif:/repo${PYTHONPATH:+:$PYTHONPATH}"
 mkdir -p .cache evidence replays
-if [ -d lean ]; then
-  (cd lean && lake build 2>&1 | tail -5)
-fi
+/venv/bin/python -X utf8 -c "
+import sys; sys.path.insert(0, '.')
+from harness import lean
+b = lean.build()
+print('lean build rc', b['rc'], 'failed', b['failed_modules'], 'wall', b['wall'])
+sys.exit(0 if b['rc'] == 0 else 1)
+"
 echo "setup done"
